@@ -94,8 +94,8 @@ CHECKS = {
         "samplers, S Hypothesis-drawn seeds per cell; mean error of log Z vs "
         "zero, spread of errors vs reported uncertainty, pooled posterior "
         "moments vs analytic values, insertion-index p-values; two cells "
-        "are killed and resumed. Quick 32 cells (20 seeds for ten of them, "
-        "rotating with the seed, 12 for the others), thorough 33 x 100.",
+        "are killed and resumed. Quick 33 of 34 cells (20 seeds for about twelve of them, "
+        "rotating with the seed, 12 for the others), thorough 34 x 100.",
         "Normal-theory tail bounds; resolution stated in the evidence "
         "(defects moving log Z of the standard sampler by < ~0.5 with 20 "
         "seeds / ~1.3 with 12 / ~0.12 thorough pass unless they move the "
@@ -207,13 +207,13 @@ CHECKS = {
         "enumeration of file-system crash points of real checkpoint and "
         "weights writes (operation boundaries + generated byte prefixes), "
         "then resume",
-        RUNS + "For 12 scenarios the operations of safe_file_dump / "
+        RUNS + "For 13 scenarios the operations of safe_file_dump / "
         "save_weights are listed by a probe run; the writer is killed before "
         "each operation, after the last, and after generated prefix lengths "
         "of the stream; a fresh process must resume to a state equal to the "
         "previous or new checkpoint digest and finish; once a checkpoint "
         "has completed, a killed later write must not make the next process "
-        "start afresh. Quick 64 crash "
+        "start afresh. Quick 92 crash "
         "points, thorough all (~400).",
         "Process death, not power loss; names os/shutil/open/torch are "
         "substituted only in the namespaces of nessai.utils.io and "
@@ -284,10 +284,10 @@ CHECKS = {
         "samplers; outcome must be rejected-up-front or completed with "
         "valid results; late exceptions and unbounded pool populations "
         "(> 2e6 latent draws in one population) are violations keyed by call "
-        "site; all pairs of option values inside four option groups "
-        "(contour, training, flow, levels: 540 pairs) are enumerated, a "
+        "site; all pairs of option values inside five option groups "
+        "(contour, training, flow, optimisation, levels: 601 pairs) are enumerated, a "
         "third per quick run; importance-sampler cases carry the "
-        "configured-stopping-rule monitor. Quick ~270 runs, thorough ~900.",
+        "configured-stopping-rule monitor. Quick ~300 runs, thorough ~1000.",
         "Iteration cap on every case; wall-clock backstop = inconclusive.",
         "DESIGN.md section 4, C20",
     ),
